@@ -19,18 +19,29 @@ Theorem le_bytes_value  :
 Proof. exact (Codec.le_bytes_value ). Qed.
 Print Assumptions le_bytes_value.
 
+(* EVERY width - no bytes included (only 0 fits) *)
 Theorem int_roundtrip signed bigend w n bs :
-  (0 < w)%nat -> enc signed bigend w n = Some bs -> dec signed bigend bs = n /\ length bs = w.
+  enc signed bigend w n = Some bs -> dec signed bigend bs = n /\ length bs = w.
 Proof. exact (Codec.int_roundtrip signed bigend w n bs). Qed.
 Print Assumptions int_roundtrip.
 
 Theorem enc_defined_iff signed bigend w n :
-  (exists bs, enc signed bigend w n = Some bs) <-> (if signed then - (P w / 2) <= n < P w / 2 else 0 <= n < P w).
+  (exists bs, enc signed bigend w n = Some bs) <-> (if signed then - P w <= 2 * n < P w else 0 <= n < P w).
 Proof. exact (Codec.enc_defined_iff signed bigend w n). Qed.
 Print Assumptions enc_defined_iff.
 
+Theorem signed_range_halves w n :
+  (0 < w)%nat -> (- P w <= 2 * n < P w <-> - (P w / 2) <= n < P w / 2).
+Proof. exact (Codec.signed_range_halves w n). Qed.
+Print Assumptions signed_range_halves.
+
+Theorem width_zero_holds_zero_only signed bigend n :
+  (exists bs, enc signed bigend 0 n = Some bs) <-> n = 0.
+Proof. exact (Codec.width_zero_holds_zero_only signed bigend n). Qed.
+Print Assumptions width_zero_holds_zero_only.
+
 Theorem twos_complement bigend w n bs :
-  (0 < w)%nat -> n < 0 -> enc true bigend w n = Some bs -> enc false bigend w (n + P w) = Some bs.
+  n < 0 -> enc true bigend w n = Some bs -> enc false bigend w (n + P w) = Some bs.
 Proof. exact (Codec.twos_complement bigend w n bs). Qed.
 Print Assumptions twos_complement.
 
@@ -40,13 +51,13 @@ Proof. exact (Codec.big_is_reversed_little signed w n). Qed.
 Print Assumptions big_is_reversed_little.
 
 Theorem bytes_roundtrip signed bigend bs :
-  Forall (fun b => (b < 256)%N) bs -> (0 < length bs)%nat ->
+  Forall (fun b => (b < 256)%N) bs ->
   enc signed bigend (length bs) (dec signed bigend bs) = Some bs.
 Proof. exact (Codec.bytes_roundtrip signed bigend bs). Qed.
 Print Assumptions bytes_roundtrip.
 
 Theorem codec_body_encodes (rec : list positive -> heap -> world -> task -> out) scheme w big sp n ip h wd :
-  (0 < w)%nat -> In scheme [1; 2] ->
+  In scheme [1; 2] ->
   runG rec value ip h wd (codec_body scheme (Z.of_nat w) big sp [VInt n]) =
   match enc (scheme =? 2) (match big with Some true => true | _ => false end) w n with
   | Some bs => DoneG h wd (inl (VBytes bs)) 0 | None => DoneG h wd (inr (mkerr c_value sp)) 0 end.
